@@ -1159,7 +1159,7 @@ def exhaustive_chunk(args):
 
 
 def run(ck):
-    ck.level = 'proof+checker'
+    ck.level = 'proof'
     ck.trusted += ['correspondence runner harness/checks/C06.py + harness/coqcases.py (cases evaluated by vm_compute inside Coq)',
                    'CachedMethods shim harness/boot.py', 'CPython 3.12.1',
                    'search only: own pure-Python Horton minimum-cycle-basis, bridge finder, block finder (validated once against networkx 3.6.1)']
@@ -1167,7 +1167,7 @@ def run(ck):
         'the SSSR selection (_bfs, _make_pid, _c_set, _rings_filter, _is_condensed_ring, _connected_rings) is NOT modelled; every sssr output of the '
         'inputs is run through the verified checker is_cycle_basis instead (theorems C06_basis_checker_sound / _complete)',
         'minimum total size and numbering independence of the ring-size multiset are search results (reference: mcb_ref inside Coq on molecules '
-        '<= 26 atoms / 8 rings, and a pure-Python Horton implementation on all), not theorems; minimality of mcb_ref itself is not proved (proved: it returns independent simple cycles)',
+        '<= 26 atoms / 8 rings, and a pure-Python Horton implementation on all), not theorems; minimality of mcb_ref itself is not proved (proved: it is a cycle basis of every well-formed graph, and minimum among independent families of its own candidates)',
         'set iteration order (set.pop in _connected_components) is an explicit input of the model and the theorem holds for every order; '
         'set-valued results are compared after sorting',
         'gap families of the property text are recognised structurally (a block containing two cycles that share exactly one path, all three '
@@ -1181,7 +1181,7 @@ def run(ck):
     import time
     t0 = time.time()
     timing = ck.extra.setdefault('timing_s', {})
-    proved = common.standard_proof_steps(ck)
+    proved = common.standard_proof_steps(ck, translators=[])   # C06 depends on no generated table
     timing['proof build + audit'] = round(time.time() - t0, 1)
     t0 = time.time()
     quick = ck.tier == 'quick'
